@@ -48,22 +48,34 @@ func selfcomp(id string, op Op, ps []Pos, o Opts, pending bool) {
 		_ = st.E.K.QueueAssetRebalanceEvent(st.E.Ctx)
 	}
 	a := st.E
-	st2 := *st
-	st2.E = a.Branch()
+	// natively the resolution of a nondeterminism source (Go randomises map iteration per
+	// range statement) cannot be dictated by a witness: the replay compares many sibling runs
+	siblings := 1
+	if !nd.Symbolic() {
+		siblings = 40
+	}
+	var others []*State
+	for k := 0; k < siblings; k++ {
+		c := *st
+		c.E = a.Branch()
+		others = append(others, &c)
+	}
 	ok1 := RunOp(st, op, id, false)
-	ok2 := RunOp(&st2, op, id, false)
 	nd.Reach(id)
-	nd.Assert(id+".result", ok1 == ok2)
-	sameState(id, a, st2.E)
+	for _, o := range others {
+		ok2 := RunOp(o, op, id, false)
+		nd.Assert(id+".result", ok1 == ok2)
+		sameState(id, a, o.E)
+	}
 }
 
-func H_C19_selfcomp_delegate()   { selfcomp("C19.selfcomp.delegate", OpDelegate, shape3("shape"), Opts{Rewards: true, BigPool: true}, false) }
-func H_C19_selfcomp_undelegate() { selfcomp("C19.selfcomp.undelegate", OpUndelegate, shapeActor("shape"), Opts{Rewards: true, BigPool: true}, false) }
-func H_C19_selfcomp_redelegate() { selfcomp("C19.selfcomp.redelegate", OpRedelegate, shapeActor("shape"), Opts{Rewards: true, BigPool: true}, false) }
-func H_C19_selfcomp_claim()      { selfcomp("C19.selfcomp.claim", OpClaim, shapeActor("shape"), Opts{Rewards: true, BigPool: true}, false) }
+func H_C19_selfcomp_delegate()   { selfcomp("C19.selfcomp.delegate", OpDelegate, shape3("shape"), Opts{Rewards: true, BigPool: true, StrictRewards: true}, false) }
+func H_C19_selfcomp_undelegate() { selfcomp("C19.selfcomp.undelegate", OpUndelegate, shapeActor("shape"), Opts{Rewards: true, BigPool: true, StrictRewards: true}, false) }
+func H_C19_selfcomp_redelegate() { selfcomp("C19.selfcomp.redelegate", OpRedelegate, shapeActor("shape"), Opts{Rewards: true, BigPool: true, StrictRewards: true}, false) }
+func H_C19_selfcomp_claim()      { selfcomp("C19.selfcomp.claim", OpClaim, shapeActor("shape"), Opts{Rewards: true, BigPool: true, StrictRewards: true}, false) }
 // first reward deposit in two denominations at once: the order of the new history entries must not depend on a map
 func H_C19_selfcomp_claim2() {
-	selfcomp("C19.selfcomp.claim2", OpClaim, []Pos{{0, 0, 0}, {1, 0, 0}}, Opts{Rewards: true, TwoRewards: true, BigPool: true}, false)
+	selfcomp("C19.selfcomp.claim2", OpClaim, []Pos{{0, 0, 0}, {1, 0, 0}}, Opts{Rewards: true, TwoRewards: true, BigPool: true, StrictRewards: true}, false)
 }
 func H_C19_selfcomp_slash()      { selfcomp("C19.selfcomp.slash", OpSlash, shapeActor("shape"), Opts{}, true) }
 func H_C19_selfcomp_endblock() {
